@@ -12,6 +12,7 @@ package main
 import (
 	"encoding/json"
 	"fmt"
+	"strconv"
 	"strings"
 	"time"
 
@@ -77,6 +78,10 @@ type C02Plan struct {
 	// depend on the route (nor, by the property, on the mode).
 	Routes [2]int `json:"routes"`
 	Other  *Cfg   `json:"other,omitempty"`
+	// Gaps[i]: simulated seconds that pass before intent i in the world of the
+	// CACHING browser (one browser with a CORS-preflight cache runs all intents in
+	// order). Empty: that world is not run.
+	Gaps []int `json:"gaps,omitempty"`
 }
 
 type c02 struct{}
@@ -110,7 +115,7 @@ func (c02) FaultKinds() []string {
 	return []string{"F5_ows", "F5_empty_elements", "F5_split_lines", "F5_empty_line", "F5_ows_around_empty_element"}
 }
 func (c02) Probes() []string {
-	return []string{"verdict_success", "verdict_fail_preflight", "verdict_fail_actual", "preflight_needed", "no_preflight_needed", "debug_on_failing_preflight", "authorization_under_star", "credentialed_intent", "pna_intent", "method_normalised", "altered_preflight_sent", "state_reached_via_history_route", "browser_bystander_headers"}
+	return []string{"verdict_success", "verdict_fail_preflight", "verdict_fail_actual", "preflight_needed", "no_preflight_needed", "debug_on_failing_preflight", "authorization_under_star", "credentialed_intent", "pna_intent", "method_normalised", "altered_preflight_sent", "state_reached_via_history_route", "browser_bystander_headers", "preflight_result_cached", "preflight_skipped_by_cache", "late_serialisation_after_other_traffic"}
 }
 
 var c02HeaderUniverse = []string{"authorization", "content-type", "x-foo", "x-bar", "x-baz-qux", "accept", "cache-control", "x-a", "x-requested-with", "x-not-listed",
@@ -270,7 +275,31 @@ func (c02) Gen(r *R, tier string) any {
 	p := &C02Plan{Cfg: genCfg(r)}
 	n := r.Range(1, 4)
 	for i := 0; i < n; i++ {
-		p.Intents = append(p.Intents, genIntent(r, p.Cfg))
+		in := genIntent(r, p.Cfg)
+		if i > 0 && r.P(0.5) {
+			// a later request of the same page to the same resource: origin, credentials
+			// mode and browser as before, another method / other headers - what a
+			// CORS-preflight cache entry of the earlier exchange may or may not cover
+			prev := p.Intents[r.Intn(i)]
+			in.Origin, in.Creds, in.UA, in.SameHost, in.PNA = prev.Origin, prev.Creds, prev.UA, prev.SameHost, false
+			if r.P(0.3) {
+				in.Headers = append(append([]string{}, prev.Headers...), in.Headers...)
+			}
+			if r.P(0.5) {
+				// the sibling operations of a REST resource, the usual suspects among headers
+				in.Method = pick(r, []string{"PUT", "DELETE", "PATCH", "POST", "GET", "PUT", "DELETE"})
+				in.Headers = nil
+				if r.P(0.5) {
+					in.Headers = []string{pick(r, []string{"content-type", "authorization", "x-requested-with", "accept", "x-foo"})}
+				}
+			}
+		}
+		p.Intents = append(p.Intents, in)
+	}
+	if n > 1 && r.P(0.7) {
+		for i := 0; i < n; i++ {
+			p.Gaps = append(p.Gaps, pick(r, []int{0, 0, 0, 1, 4, 5, 6, 60, 599, 600, 601, 7199, 7201, 86399, 86401}))
+		}
 	}
 	if r.P(0.5) {
 		o := genCfg(r)
@@ -515,12 +544,93 @@ type verdict struct {
 
 // fetch runs the whole protocol for one intent against the real middleware.
 func browserFetch(srv *mwServer, in Intent, alts []Alteration, c *Ctx, trace *[]string) verdict {
+	return browserFetchCached(srv, in, alts, c, trace, nil)
+}
+
+// ---- the CORS-preflight cache (Fetch, "CORS-preflight cache")
+
+type pcEntry struct {
+	origin, url string
+	creds       bool
+	method      string // "" for a header-name entry
+	header      string // "" for a method entry
+	expires     int    // simulated seconds
+}
+
+type preflightCache struct {
+	now     int // simulated clock (seconds); the only clock this world has
+	cap     int // the user agent's limit on max-age
+	entries []pcEntry
+}
+
+func (pc *preflightCache) entryMatch(e pcEntry, in Intent, url string) bool {
+	// "cache entry match": same origin, same URL, and (entry's credentials is true, or the
+	// request's credentials mode is not "include"); expired entries are gone
+	return e.origin == in.Origin && e.url == url && pc.now < e.expires && (e.creds || !in.Creds)
+}
+
+func (pc *preflightCache) methodMatch(in Intent, url, method string) bool {
+	for _, e := range pc.entries {
+		// a `*` entry is honoured only where `*` is a wildcard (stored without credentials)
+		if e.header == "" && pc.entryMatch(e, in, url) && (e.method == method || e.method == "*" && !e.creds) {
+			return true
+		}
+	}
+	return false
+}
+
+func (pc *preflightCache) headerMatch(in Intent, url, name string) bool {
+	for _, e := range pc.entries {
+		if e.method == "" && pc.entryMatch(e, in, url) && (strings.EqualFold(e.header, name) || e.header == "*" && !e.creds && name != "authorization") {
+			return true
+		}
+	}
+	return false
+}
+
+func (pc *preflightCache) store(in Intent, url string, methods, headerNames []string, maxAge int) {
+	if maxAge > pc.cap {
+		maxAge = pc.cap
+	}
+	upsert := func(method, header string) {
+		for i, e := range pc.entries {
+			if e.origin == in.Origin && e.url == url && e.creds == in.Creds && e.method == method && strings.EqualFold(e.header, header) && pc.now < e.expires {
+				pc.entries[i].expires = pc.now + maxAge
+				return
+			}
+		}
+		pc.entries = append(pc.entries, pcEntry{in.Origin, url, in.Creds, method, header, pc.now + maxAge})
+	}
+	for _, m := range methods {
+		upsert(m, "")
+	}
+	for _, h := range headerNames {
+		upsert("", h)
+	}
+}
+
+// browserFetchCached: as browserFetch; with a cache, the preflight is skipped
+// when the method (unless safelisted) and every unsafe header name have a
+// cache entry match, and a successful preflight populates the cache.
+func browserFetchCached(srv *mwServer, in Intent, alts []Alteration, c *Ctx, trace *[]string, pc *preflightCache) verdict {
 	method := normalizeMethod(in.Method)
 	if method != in.Method {
 		c.hit("method_normalised")
 	}
 	names := lowerSortedUnique(in.Headers)
 	needPreflight := !isSafelistedMethod(method) || len(names) > 0 || in.PNA
+	url := Req{Host: hostOf(in), Shape: []int{0, 2, 3, 1}[in.UA%4]}.urlKey()
+	if pc != nil && needPreflight && !in.PNA {
+		covered := isSafelistedMethod(method) || pc.methodMatch(in, url, method)
+		for _, n := range names {
+			covered = covered && pc.headerMatch(in, url, n)
+		}
+		if covered {
+			needPreflight = false
+			c.hit("preflight_skipped_by_cache")
+			*trace = append(*trace, fmt.Sprintf("t=%ds preflight skipped: CORS-preflight cache covers %s %v", pc.now, method, names))
+		}
+	}
 	if needPreflight {
 		c.hit("preflight_needed")
 		q := Req{Method: "OPTIONS", H: []HV{{hOrigin, []string{in.Origin}}, {hACRM, []string{method}}}, Host: hostOf(in)}
@@ -574,6 +684,17 @@ func browserFetch(srv *mwServer, in Intent, alts []Alteration, c *Ctx, trace *[]
 			if v, ok := headerGet(resp.Headers, hACAPN); !ok || v != "true" {
 				return verdict{false, "preflight", "private-network target but no Access-Control-Allow-Private-Network: true"}
 			}
+		}
+		if pc != nil && !in.PNA {
+			// max-age: the single Access-Control-Max-Age value if it is a non-negative integer, else 5
+			maxAge := 5
+			if lines, ok := fpGet(resp.Headers, hACMA); ok && len(lines) == 1 {
+				if n, err := strconv.Atoi(lines[0]); err == nil && n >= 0 && strings.Trim(lines[0], "0123456789") == "" {
+					maxAge = n
+				}
+			}
+			pc.store(in, url, methods, headerNames, maxAge)
+			c.hit("preflight_result_cached")
 		}
 	} else {
 		c.hit("no_preflight_needed")
@@ -820,6 +941,68 @@ func (c02) Exec(plan any, c *Ctx) *Violation {
 				}
 				return &Violation{Class: cls, Key: variant.name, Detail: fmt.Sprintf("cfg=%s %s intent=%+v alterations=%+v: browser verdict ok=%v (%s %s) but the configuration says permitted=%v (%s); trace: %s",
 					p.Cfg, variant.name, in, variant.alts, v.OK, v.Stage, v.Why, want, why, strings.Join(trace, " || "))}
+			}
+		}
+	}
+	// ---- two tabs: the response to intent A's actual request is serialised late (its
+	// handler writes nothing, so net/http writes the head only when the chain has
+	// returned), and in between the server answers intent B's. What the first
+	// browser finally receives must be what the middleware left at return.
+	if len(p.Intents) >= 2 {
+		for _, w := range []struct {
+			name string
+			srv  *mwServer
+		}{{"debug=off", srvOff}, {"debug=on", srvOn}} {
+			a, b := p.Intents[0], p.Intents[1]
+			qa := Req{Method: normalizeMethod(a.Method), H: []HV{{hOrigin, []string{a.Origin}}}, Host: hostOf(a)}
+			qb := Req{Method: normalizeMethod(b.Method), H: []HV{{hOrigin, []string{b.Origin}}}, Host: hostOf(b)}
+			rw, pan := w.srv.doLazy(qa)
+			if pan != "" {
+				return &Violation{Class: "panic", Key: "serve", Detail: fmt.Sprintf("cfg=%s %s: %s", p.Cfg, qa, pan)}
+			}
+			early := headerFP(rw.h)
+			okEarly, _ := corsCheck(a, early)
+			w.srv.do(qb)
+			w.srv.doLazy(qb)
+			late := headerFP(rw.h)
+			okLate, why := corsCheck(a, late)
+			c.hit("late_serialisation_after_other_traffic")
+			if early != late {
+				return &Violation{Class: "response-changed-after-return", Key: w.name, Detail: fmt.Sprintf("cfg=%s %s: the response to %s was %s when the middleware returned and %s after the server had answered %s (CORS check of the first browser: %v -> %v %s)",
+					p.Cfg, w.name, qa, early, late, qb, okEarly, okLate, why)}
+			}
+		}
+	}
+	// ---- the world of the caching browser: ONE browser with a CORS-preflight cache runs
+	// the intents in order on a simulated clock; what an earlier preflight response
+	// listed decides whether a later request is preflighted at all. The verdict of
+	// every intent must still be what the configuration means.
+	if len(p.Gaps) > 0 {
+		for _, w := range []struct {
+			name  string
+			srv   *mwServer
+			cfg   Cfg
+			debug bool
+		}{{"caching browser, debug=off", srvOff, cfgOff, false}, {"caching browser, debug=on", srvOn, cfgOn, true}} {
+			pc := &preflightCache{}
+			var trace []string
+			for i, in := range p.Intents {
+				pc.now += p.Gaps[i%len(p.Gaps)]
+				pc.cap = []int{600, 7200, 7200, 86400}[in.UA%4] // WebKit, Chromium, Chromium, Gecko
+				want, why := permits(w.cfg, in)
+				v := browserFetchCached(w.srv, in, nil, c, &trace, pc)
+				c.logf("%s t=%ds intent=%+v -> ok=%v stage=%s (permits=%v)", w.name, pc.now, in, v.OK, v.Stage, want)
+				if v.Stage == "panic" {
+					return &Violation{Class: "panic", Key: "serve", Detail: fmt.Sprintf("cfg=%s intent=%+v: %s", p.Cfg, in, v.Why)}
+				}
+				if v.OK != want {
+					cls := "browser-succeeds-but-config-forbids+preflight-cache"
+					if want {
+						cls = "browser-fails-but-config-permits+preflight-cache"
+					}
+					return &Violation{Class: cls, Key: w.name, Detail: fmt.Sprintf("cfg=%s %s, intent #%d %+v at t=%ds: browser verdict ok=%v (%s %s) but the configuration says permitted=%v (%s); trace of this browser: %s",
+						p.Cfg, w.name, i, in, pc.now, v.OK, v.Stage, v.Why, want, why, strings.Join(trace, " || "))}
+				}
 			}
 		}
 	}
